@@ -496,13 +496,14 @@ def r5_factories(chk):
            'lexerFactory(**%s) expected' % kw)
     if lf:
         st = common.stmt_of(lf[0])
-        ok = isinstance(st, ast.Assign) and norm(st.targets[0]) == "classAttr['defaultLexer']"
+        ok = isinstance(st, ast.Assign) and common.pmatch(st.targets[0], "$c['defaultLexer']") is not None
         chk.ob('C17.R5', 'parserFactory/defaultLexer', ok, where(model.mod(PARSER), st), norm(st)[:80])
     # rule functions of an option are installed under their own names
     for x in walk_no_nested(fn):
+        b_ = common.pmatch(x, '$c[$f.__name__] = $f') if isinstance(x, ast.Assign) else None
         if isinstance(x, ast.Assign) and isinstance(x.targets[0], ast.Subscript) and \
-                norm(x.targets[0].value) == 'classAttr' and norm(x.targets[0].slice) in ('func.__name__',):
-            chk.ob('C17.R5', 'parserFactory/installs-rule-functions', norm(x.value) == 'func',
+                common.pmatch(x.targets[0].slice, '$f.__name__') is not None:
+            chk.ob('C17.R5', 'parserFactory/installs-rule-functions', b_ is not None,
                    where(model.mod(PARSER), x), norm(x))
 
 
